@@ -4,6 +4,7 @@ package c15
 import (
 	"fmt"
 	"strings"
+	"time"
 
 	"github.com/cedar-policy/cedar-go/types"
 	"github.com/cedar-policy/cedar-go/verif/core"
@@ -563,8 +564,9 @@ func tagGuards() *core.Family {
 
 func Check() *core.Check {
 	return &core.Check{
-		ID:    "C15",
-		Title: "Validated policies cannot fail with type errors",
+		ID:        "C15",
+		HangAfter: 120 * time.Second, // cases take at most seconds (max_case_s in the evidence); see core.Family.HangAfter
+		Title:     "Validated policies cannot fail with type errors",
 		Rule: "bounded-exhaustive enumeration of policies over a schema that contains a required and an optional attribute of every type (incl. the four extension types, sets, nested records, entity references), tags, a two-level hierarchy, an action applying to two principal and two resource types, an action group and optional context members: every operator form over every leaf tuple (variables, existing / optional / missing attribute paths, literals) in 6 scopes, plus has- and tag-guard forms up to depth 3; every policy that the validator accepts (strict or permissive) is evaluated on every conforming environment (requests for every action / principal type / resource type; stores with optional attributes and tags present and absent, entities present and absent; 4 contexts) and must not fail with a type, arity, unknown-function, missing-attribute or missing-tag error; " +
 			"a case is non-trivial if some validator accepted the policy in some scope",
 		Assumptions: []string{
